@@ -219,9 +219,12 @@ def gen_c15(r, n, tier):
         gen_cwd(r, t, want=r.choice(["none", "none", "sub", "rel"]))
         nent = r.choice([1, 2, 3, 5, 9]) if tier == "quick" or r.chance(3, 4) else r.choice([20, 40])
         entries = []
+        odd_entry = r.below(nent) if r.chance(1, 3) else -1      # a PATH entry that is not valid UTF-8
         for j in range(nent):
             kind = r.choice(CAND_KINDS)
             d = "p%d" % j
+            if j == odd_entry:
+                d = os.fsdecode(b"p\xff\xc3%d" % j)
             rel = r.chance(1, 6)
             if kind == "notdir":
                 lay["files"][d] = b"plain file used as a directory\n"
@@ -242,10 +245,10 @@ def gen_c15(r, n, tier):
                     elif kind == "emptyfile":
                         lay["files"][os.fsencode(target)] = b""
                         lay["modes"][os.fsencode(target)] = 0o755
-            ent = (b"" if rel else b"$WD/") + d.encode()
+            ent = (b"" if rel else b"$WD/") + os.fsencode(d)
             if rel and t["cwd"] is not None:
                 # a relative entry is resolved in the child's working directory
-                ent = b"$WD/" + d.encode() if r.chance(1, 3) else t.get("cwd_up", b"../../") + d.encode()
+                ent = b"$WD/" + os.fsencode(d) if r.chance(1, 3) else t.get("cwd_up", b"../../") + os.fsencode(d)
             entries.append(ent)
             r2 = r.below(10)
             if r2 == 0:
